@@ -49,6 +49,9 @@ def _ri(r, n=1 << 16):
 
 
 def gen_var(w, r, cfg):
+    dec = [w.name_idx[nm] for nm in w.mgrs[0].raw.vars if nm in w.name_idx]
+    if dec and r.random() < 0.9:
+        return dict(op='var', k=r.choice(sorted(dec)))
     return dict(op='var', k=_ri(r, w.nv))
 
 
@@ -259,7 +262,12 @@ def next_instruction(w, r, cfg):
     # pressure valve: too many handles -> drop; none -> create
     n = len(w.slots)
     if n == 0:
-        return gen_var(w, r, cfg)
+        # nothing to work with: declare a variable if there is none, else
+        # take a handle on a declared one (generation may look at the world)
+        dec = [w.name_idx[nm] for nm in w.mgrs[0].raw.vars if nm in w.name_idx]
+        if not dec:
+            return dict(op='declare', k=_ri(r, w.nv), how=r.randrange(2), m=0)
+        return dict(op='var', k=r.choice(sorted(dec)))
     if n > cfg['max_slots'] and r.random() < 0.7:
         return gen_drop(w, r, cfg)
     if cfg.get('m1_rate') and len(w.mgrs) > 1 and r.random() < cfg['m1_rate']:
